@@ -48,7 +48,7 @@ def _rwhere(rng):
 
 
 def generate(rng, tier):
-    hi = 8 if tier == "quick" else rng.choice([6, 8, 12])
+    hi = 8 if tier == "quick" else rng.choice([6, 8, 12, 12, 26])
     cfg = {"faults": rng.random() < 0.7, "t0": rng.uniform(0, 4.29e9), "precision0": 64 if rng.random() < 0.9 else 32}
     fmts = [f for f in FORMATS if rng.random() < 0.6] or [rng.choice(FORMATS)]
     npaths = rng.randint(1, 3)
@@ -63,6 +63,10 @@ def generate(rng, tier):
             fmt = rng.choice(fmts)
             op = {"op": "write", "fmt": fmt, "path": p, "map": _rmap(rng, hi),
                   "dx": 10 ** rng.uniform(-3, 2), "wvl": rng.choice([0.6328, 0.6328, rng.uniform(0.3, 11.0)])}
+            if fmt == "codev" and rng.random() < 0.4:
+                op["cv"] = {"typ": rng.choice(["SUR", "WFR", "wfr"]), "nnb": rng.random() < 0.5}
+            if fmt == "ifg" and rng.random() < 0.05:
+                op["dx"] = 0.0          # the library's "no lateral calibration" marker
             if cfg["faults"] and rng.random() < 0.35:
                 kind = rng.choice(["enospc", "crash", "crash", "eio_close"])
                 op["fault"] = {"kind": kind, "where": _rwhere(rng), "survive_u": rng.random()}
@@ -179,7 +183,7 @@ def _setup():
     return w
 
 
-def _write(w, fmt, path, z, dx, wvl):
+def _write(w, fmt, path, z, dx, wvl, cv=None):
     """Call the real writer.  Returns None or the exception it raised."""
     from prysm.interferogram import Interferogram
     pio = w.pio
@@ -191,7 +195,10 @@ def _write(w, fmt, path, z, dx, wvl):
     elif fmt == "ifg":
         Interferogram(z.copy(), dx=dx, wavelength=wvl).save_zygo_dat(path)
     elif fmt == "codev":
-        pio.write_codev_gridint(z.copy(), path)
+        if cv:
+            pio.write_codev_gridint(z.copy(), path, typ=cv["typ"], nnb=cv["nnb"])
+        else:
+            pio.write_codev_gridint(z.copy(), path)
     else:
         raise ValueError(fmt)
 
@@ -517,7 +524,7 @@ def execute(plan):
             try:
                 with warnings.catch_warnings():
                     warnings.simplefilter("ignore")
-                    _write(w, "zygo_path" if fmt in ("zygo_file",) else fmt, "/sim/.dry", z, op["dx"], op["wvl"])
+                    _write(w, "zygo_path" if fmt in ("zygo_file",) else fmt, "/sim/.dry", z, op["dx"], op["wvl"], op.get("cv"))
                 full = w.disk.files.pop("/sim/.dry")
             except Exception as e:
                 dry_exc = e
@@ -548,7 +555,7 @@ def execute(plan):
             try:
                 with warnings.catch_warnings():
                     warnings.simplefilter("ignore")
-                    _write(w, fmt, path, z, op["dx"], op["wvl"])
+                    _write(w, fmt, path, z, op["dx"], op["wvl"], op.get("cv"))
             except SimCrash:
                 out = "crash"
             except Exception as e:
@@ -629,7 +636,20 @@ def execute(plan):
         else:
             raise RuntimeError(f"unknown op {k}")
         events.append(ev)
-        trans.add(f"{k}|{ev.get('fmt', '')}|{ev.get('region', '')}|{str(ev.get('out', ''))[:24]}|{(ev.get('fault') or [''])[0]}")
+        # reach measure: (op, format, reader, state of the file on disk, fault kind and region, outcome, map class)
+        ent = model.get(op.get("path")) if op.get("path") else None
+        fstate = ""
+        if ent is not None and op.get("path") in w.disk.files:
+            cur_len = len(w.disk.files[op["path"]])
+            fstate = "complete" if cur_len >= len(ent["full"]) else "cut:" + _region(ent, _sample_spans(w, ent), cur_len)
+        flt = ev.get("fault") or [""]
+        fregion = ""
+        if len(flt) > 1 and ent is not None:
+            fregion = _region(ent, _sample_spans(w, ent), flt[1])
+        mp = op.get("map") or {}
+        trans.add("|".join(str(x) for x in (k, ev.get("fmt", ent["fmt"] if ent else ""), op.get("via", ""), fstate, flt[0], fregion,
+                                            str(ev.get("out", ""))[:24], mp.get("vals", ""), mp.get("nan", ""),
+                                            "1xN" if mp and 1 in mp["shape"] else "")))
 
     faults = dict(w.disk.fired)
     extra["simulated_clock_span_s"] = abs(clock.now_s - clock.t0)
